@@ -39,6 +39,21 @@ fn opcode_of(c: u8) -> Option<OpCodes> {
     }
 }
 
+/// decimal digits only (the Gallina side does not accept a leading '+')
+fn dec<T: std::str::FromStr>(s: &str) -> Option<T> {
+    if s.is_empty() || !s.bytes().all(|b| b.is_ascii_digit()) {
+        return None;
+    }
+    s.parse().ok()
+}
+fn arg_dec(args: &[String], i: usize) -> Option<u64> {
+    args.get(i).and_then(|a| dec::<u64>(a))
+}
+/// step counts are kept below 100000 on both sides
+fn arg_k(args: &[String], i: usize) -> Option<u64> {
+    arg_dec(args, i).filter(|k| *k < 100000)
+}
+
 fn parse_n(toks: &[&str], pos: &mut usize, n: usize) -> Option<Vec<ScriptBit>> {
     let mut out = Vec::new();
     for _ in 0..n {
@@ -52,7 +67,7 @@ fn parse_one(toks: &[&str], pos: &mut usize) -> Option<ScriptBit> {
     *pos += 1;
     let (kind, rest) = t.split_at(1.min(t.len()));
     match kind {
-        "o" => Some(ScriptBit::OpCode(opcode_of(rest.parse().ok()?)?)),
+        "o" => Some(ScriptBit::OpCode(opcode_of(dec(rest)?)?)),
         "p" => Some(ScriptBit::Push(hex::decode(rest).ok()?)),
         "c" => Some(ScriptBit::Coinbase(hex::decode(rest).ok()?)),
         "d" => {
@@ -60,20 +75,20 @@ fn parse_one(toks: &[&str], pos: &mut usize) -> Option<ScriptBit> {
             if f.len() != 2 {
                 return None;
             }
-            Some(ScriptBit::PushData(opcode_of(f[0].parse().ok()?)?, hex::decode(f[1]).ok()?))
+            Some(ScriptBit::PushData(opcode_of(dec(f[0])?)?, hex::decode(f[1]).ok()?))
         }
         "i" => {
             let f: Vec<&str> = rest.split('.').collect();
             if f.len() != 3 {
                 return None;
             }
-            let code = opcode_of(f[0].parse().ok()?)?;
-            let np: usize = f[1].parse().ok()?;
+            let code = opcode_of(dec(f[0])?)?;
+            let np: usize = dec(f[1])?;
             let pass = parse_n(toks, pos, np)?;
             let fail = if f[2] == "x" {
                 None
             } else {
-                let nf: usize = f[2].parse().ok()?;
+                let nf: usize = dec(f[2])?;
                 Some(parse_n(toks, pos, nf)?)
             };
             Some(ScriptBit::If { code, pass, fail })
@@ -237,7 +252,7 @@ fn step_vs_run_with(mk: &dyn Fn() -> Interpreter) -> String {
 /// interp.txrun <unlocking script bytes> <locking script bytes> <input index>
 /// one-input transaction (value 1000, locking script attached), Interpreter::from_transaction(&tx, idx)
 fn do_txrun(args: &[String]) -> String {
-    let (u, l, idx) = match (arg_bytes(args, 0), arg_bytes(args, 1), arg_u64(args, 2)) {
+    let (u, l, idx) = match (arg_bytes(args, 0), arg_bytes(args, 1), arg_dec(args, 2)) {
         (Some(u), Some(l), Some(i)) => (u, l, i as usize),
         _ => return "BADARG".into(),
     };
@@ -256,13 +271,119 @@ fn do_txrun(args: &[String]) -> String {
     step_vs_run_with(&|| Interpreter::from_transaction(&tx, idx).unwrap())
 }
 
+fn full(it: &Interpreter) -> String {
+    format!("{};{};{}", show_state(&it.state()), it.script_index(), it.script_bits().len())
+}
+
+/// call history on ONE interpreter object: k x next(), clone, run(), run() on the clone, run() again;
+/// State accessors; comparison with a fresh run
+fn hist_with(mk: &dyn Fn() -> Interpreter, k: usize) -> String {
+    let mut it = mk();
+    let mut n = 0usize;
+    let mut ko = "O";
+    let mut acc = 1;
+    for _ in 0..k {
+        match it.next() {
+            None => {
+                ko = "F";
+                break;
+            }
+            Some(Err(_)) => {
+                ko = "E";
+                break;
+            }
+            Some(Ok(st)) => {
+                n += 1;
+                let s2 = it.state();
+                if show_state(&st) != show_state(&s2) || st.stack() != &s2.stack[..] || s2.stack() != &st.stack[..] {
+                    acc = 0;
+                }
+            }
+        }
+    }
+    let mut cl = it.clone();
+    let r1 = it.run().is_ok();
+    let s1 = full(&it);
+    let rc = cl.run().is_ok();
+    let cflag = if rc == r1 && full(&cl) == s1 { 1 } else { 0 };
+    let st1 = it.state();
+    let r2 = it.run().is_ok();
+    let s2 = full(&it);
+    let mut fresh = mk();
+    let rf = fresh.run().is_ok();
+    let sf = fresh.state();
+    let same = if rf == r1 && show_items(&sf.stack) == show_items(&st1.stack) && show_items(&sf.alt_stack) == show_items(&st1.alt_stack) { 1 } else { 0 };
+    let disp = if format!("{}", it.state()).is_empty() { 0 } else { 1 };
+    let hastx = if it.tx_script().is_some() { 1 } else { 0 };
+    format!("OK:{};{};{};{};{};{};{};{};{};{};{}", ko, n, if r1 { "O" } else { "E" }, s1, if r2 { "O" } else { "E" }, s2, cflag, same, acc, disp, hastx)
+}
+
+fn garbage_tx(us: &Script, ls: &Script) -> Transaction {
+    let mut tx = Transaction::new(1, 0);
+    let mut txin = TxIn::new(&[0u8; 32], 0, us, None);
+    txin.set_locking_script(ls);
+    txin.set_satoshis(1000);
+    tx.add_input(&txin);
+    tx
+}
+
+/// interp.hist <script> <k> | interp.histbits <tree> <k> | interp.histtx <unlock> <lock> <k>
+/// interp.histtxbits <unlock> <lock> <tree> <idx> <k>   (from_transaction_and_script_bits with bits that need not be the input's own script)
+fn do_hist(op: &str, args: &[String]) -> String {
+    match op {
+        "interp.hist" | "interp.histbits" => {
+            let k = match arg_k(args, 1) {
+                Some(k) => k as usize,
+                None => return "BADARG".into(),
+            };
+            let src = if op == "interp.hist" { Src::Bytes } else { Src::Tree };
+            match script_of(&src, args) {
+                Err(()) => "BADARG".into(),
+                Ok(None) => "ERR".into(),
+                Ok(Some(s)) => hist_with(&|| Interpreter::from_script(&s), k),
+            }
+        }
+        "interp.histtx" => {
+            let (u, l, k) = match (arg_bytes(args, 0), arg_bytes(args, 1), arg_k(args, 2)) {
+                (Some(u), Some(l), Some(k)) => (u, l, k as usize),
+                _ => return "BADARG".into(),
+            };
+            let (us, ls) = match (Script::from_bytes(&u), Script::from_bytes(&l)) {
+                (Ok(a), Ok(b)) => (a, b),
+                _ => return "ERR".into(),
+            };
+            let tx = garbage_tx(&us, &ls);
+            if Interpreter::from_transaction(&tx, 0).is_err() {
+                return "ERR".into();
+            }
+            hist_with(&|| Interpreter::from_transaction(&tx, 0).unwrap(), k)
+        }
+        _ => {
+            let (u, l, idx, k) = match (arg_bytes(args, 0), arg_bytes(args, 1), arg_dec(args, 3), arg_k(args, 4)) {
+                (Some(u), Some(l), Some(i), Some(k)) => (u, l, i as usize, k as usize),
+                _ => return "BADARG".into(),
+            };
+            let bits = match args.get(2).and_then(|t| parse_tree(t)) {
+                Some(b) => b,
+                None => return "BADARG".into(),
+            };
+            let (us, ls) = match (Script::from_bytes(&u), Script::from_bytes(&l)) {
+                (Ok(a), Ok(b)) => (a, b),
+                _ => return "ERR".into(),
+            };
+            let tx = garbage_tx(&us, &ls);
+            hist_with(&|| Interpreter::from_transaction_and_script_bits(tx.clone(), idx, bits.clone()), k)
+        }
+    }
+}
+
 /// interp.txsafe <unlock> <lock> <idx> <nout>
 /// Like interp.txrun, but the data may be real-looking signatures and keys, so the outcome of the signature checks is
 /// not predicted; the result is three facts the property demands of ANY run: stepping equals run, an error keeps the
 /// stacks (and a second next() is again an error with the same stacks), and Interpreter::from_transaction_and_script_bits
 /// on the same bits behaves identically.  A panic anywhere in the CHECKSIG family shows as PANIC.
 fn do_txsafe(args: &[String]) -> String {
-    let (u, l, idx, nout) = match (arg_bytes(args, 0), arg_bytes(args, 1), arg_u64(args, 2), arg_u64(args, 3)) {
+    let (u, l, idx, nout) = match (arg_bytes(args, 0), arg_bytes(args, 1), arg_dec(args, 2), arg_dec(args, 3)) {
         (Some(u), Some(l), Some(i), Some(n)) => (u, l, i as usize, n),
         _ => return "BADARG".into(),
     };
@@ -298,6 +419,9 @@ fn do_txsafe(args: &[String]) -> String {
 pub fn run(op: &str, args: &[String]) -> Option<String> {
     if op == "interp.txrun" {
         return Some(do_txrun(args));
+    }
+    if op == "interp.hist" || op == "interp.histbits" || op == "interp.histtx" || op == "interp.histtxbits" {
+        return Some(do_hist(op, args));
     }
     if op == "interp.txsafe" {
         return Some(do_txsafe(args));
